@@ -72,9 +72,11 @@ def _r1_output(repo, report, rule):
             guard = tuple(sorted((k, v) for k, v in r.valuation.items() if k != "truthy:self._proxied" and not k.startswith("loop-nonempty") and not k.startswith("truthy:PATHS") and "item(" not in k))
             by_branch.setdefault(guard, {})[proxied] = (tuple(fmt), ctor)
         diff = []
-        for g, d in by_branch.items():
-            if True in d and False in d and d[True][0] != d[False][0]:
-                diff.append({"guard": dict(g), "proxied": d[True], "direct": d[False]})
+        items = [(dict(g), pr, v) for g, d in by_branch.items() for pr, v in d.items()]
+        for g1, p1, v1 in items:
+            for g2, p2, v2 in items:
+                if p1 is True and p2 is False and all(g2.get(k, x) == x for k, x in g1.items()) and v1[0] != v2[0]:
+                    diff.append({"proxied_guard": g1, "proxied": v1, "direct_guard": g2, "direct": v2})
         # each branch exists
         ctors = {c for d in by_branch.values() for (_, c) in d.values()}
         ok_branches = ctors >= {"ProxyRecordWriter", "dnaio_open"}
@@ -203,7 +205,9 @@ def r2_fasta(repo, report):
         if r.exit[0] != "return":
             continue
         fmt = [e[2] for e in r.effects if e[0] == "store" and e[1] == "KWARGS['fileformat']"]
-        if ("'fasta'" in fmt) != (r.valuation.get("truthy:FORCE_FASTA") is True):
+        if r.valuation.get("truthy:FORCE_FASTA") is None:
+            bad.append({"writer returned without looking at force_fasta": r.describe()["valuation"]})
+        elif ("'fasta'" in fmt) != (r.valuation.get("truthy:FORCE_FASTA") is True):
             bad.append(r.describe()["valuation"])
     report.ob("C19.R2", "OutputFiles.open_stdout_record_writer: --fasta", not bad, facts={"problems": bad[:2]}, expected="fileformat='fasta' iff force_fasta, for both the proxied and the direct writer", loc=repo.loc(fn2),
               why="" if not bad else "--fasta is honoured by only one of the two writers")
